@@ -231,7 +231,7 @@ def _work(names: List[str]):
             continue
         if name.startswith("@hdr:"):
             for c in gen.header_variants(name[5:]):
-                if _QUICK and (len(c["acks"]) > 3 or len(c["extra"]) > 3):
+                if _QUICK and (len(c["acks"]) > 3 or len(c["extra"]) > 16):
                     continue
                 check_case(part, gen, c, ser, de_eager, de_lazy)
             continue
